@@ -13,7 +13,8 @@ From Coq Require Import List Bool Arith ZArith String Lia.
 Import ListNotations.
 From Omega Require Import L7Codegen.Pred L7Codegen.PredFacts L7Codegen.Synth
   L7Codegen.SynthProofs L7Codegen.Bits L7Codegen.BitsProofs L7Codegen.Dag
-  L7Codegen.DagProofs L7Codegen.Step L7Codegen.StepProofs.
+  L7Codegen.DagProofs L7Codegen.Step L7Codegen.StepProofs
+  L7Codegen.Render L7Codegen.RenderProofs.
 From OmegaGen Require Import C13_tables.
 
 (* (1) int_bits_roundtrip: for every type hint (Boolean, unsigned, signed,
@@ -98,6 +99,75 @@ Theorem C13_languages_same_keys_bounded :
   forallb (fun l => forallb (fun k => has_key k (snd l)) used_keys) languages = true.
 Proof. vm_compute. repeat split; reflexivity. Qed.
 
+(* (5) the rendered TEXT.  Render.v lays a program out as the token list of
+   the text dumps_bdd_as_code writes (COMMENT level lines; `latch_k = (`,
+   `(bit AND hi) OR`, `((NOT bit) AND lo))SEP`; `out_bits["name"] = ref SEP`;
+   lines joined by line breaks) for ANY syntax table, and run_text is a
+   strict evaluator of that token language parametric in the same table
+   (or/and/not with the usual precedences, parentheses, TRUE/FALSE,
+   identifiers that must be inputs or latches assigned earlier, no second
+   assignment, mandatory separator, comment lines).
+   For EVERY table whose tokens are pairwise distinct and do not look like
+   latches/outputs (syntax_ok), every list of pairwise distinct input names
+   that are no tokens (names_ok) and every program the strict AST evaluator
+   accepts: evaluating the rendered text = evaluating the AST. *)
+Theorem C13_rendered_text_evaluates_program :
+  forall sy names outname, syntax_ok sy = true -> names_ok sy names = true ->
+  forall a p outs,
+  prog_bits_ok (List.length names) p = true ->
+  run a p = Some outs ->
+  run_text sy names a (render sy names outname p)
+  = Some (map (fun o => (out_word (outname (fst o)), snd o)) outs).
+Proof. exact rendered_text_evaluates_program. Qed.
+
+(* hence, with (2): for every well-formed DAG whose nodes test input bits,
+   the rendered text evaluates each root to the BDD's value *)
+Theorem C13_rendered_text_evaluates_bdd :
+  forall sy names outname, syntax_ok sy = true -> names_ok sy names = true ->
+  forall d nlev a roots,
+  wf_dag d nlev = true -> dag_bits_ok (List.length names) d = true ->
+  (forall r, In r roots -> root_ok_p d nlev (snd r)) ->
+  run_text sy names a (render sy names outname (dumps_bdd_as_code nlev d roots))
+  = Some (map (fun r => (out_word (outname (fst r)), ref_val (S nlev) d a (snd r))) roots).
+Proof. exact rendered_text_evaluates_bdd. Qed.
+
+(* the side condition holds for every extracted table (python and c), and
+   the names b0.. used by the correspondence are admissible for both; by
+   computation over the generated tables *)
+Theorem C13_rendered_text_tables_ok_bounded :
+  forallb (fun l => match syntax_of (snd l) with
+                    | Some sy => syntax_ok sy && forallb (fun n => names_ok sy (bnames n)) (seq 0 13)
+                    | None => false
+                    end) languages = true /\
+  (exists sy, lang_syntax "python" languages = Some sy) /\
+  (exists sy, lang_syntax "c" languages = Some sy).
+Proof. split; [vm_compute; reflexivity|]. split; eexists; vm_compute; reflexivity. Qed.
+
+(* so: for each extracted target language *)
+Theorem C13_rendered_text_evaluates_extracted :
+  forall lang sy, lang_syntax lang languages = Some sy ->
+  forall names outname, names_ok sy names = true ->
+  forall d nlev a roots,
+  wf_dag d nlev = true -> dag_bits_ok (List.length names) d = true ->
+  (forall r, In r roots -> root_ok_p d nlev (snd r)) ->
+  run_text sy names a (render sy names outname (dumps_bdd_as_code nlev d roots))
+  = Some (map (fun r => (out_word (outname (fst r)), ref_val (S nlev) d a (snd r))) roots).
+Proof.
+  intros lang sy L names outname NO. apply rendered_text_evaluates_bdd; [|exact NO].
+  clear NO names outname.
+  assert (A : forall l, In l languages -> forall sy', syntax_of (snd l) = Some sy' ->
+                syntax_ok sy' = true).
+  { intros l I sy' E.
+    pose proof (proj1 C13_rendered_text_tables_ok_bounded) as H.
+    rewrite forallb_forall in H. specialize (H l I). rewrite E in H.
+    apply andb_true_iff in H. tauto. }
+  revert L. generalize languages at 1 as ls, A. intros ls.
+  induction ls as [|[k t] r IH]; intros A' L; [discriminate|].
+  cbn [lang_syntax] in L. destruct (String.eqb k lang).
+  - apply (A' (k, t)); [left; reflexivity | exact L].
+  - apply IH; [|exact L]. intros l I. apply A'. right. exact I.
+Qed.
+
 (* --- the hypotheses are satisfiable ---------------------------------------- *)
 (* a DAG with a complemented edge: root -5 = not (b0 and b1) *)
 Definition ex_dag : dag :=
@@ -112,6 +182,38 @@ Example C13_straightline_instance :
 Proof.
   split; [vm_compute; reflexivity|]. split; [|vm_compute; reflexivity].
   intros r [<-|[<-|[]]]; eexists; (split; [vm_compute; reflexivity|right; cbn; lia]).
+Qed.
+
+(* the same DAG as text, in both extracted syntaxes *)
+Definition ex_c_text : list string :=
+  ["//"; "level"; ":"; "1"; NL;
+   "latch_4"; "="; "("; NL; "("; "b1"; "&&"; "true"; ")"; "||"; NL;
+   "("; "("; "!"; "b1"; ")"; "&&"; "("; "!"; "true"; ")"; ")"; ")"; ";"; NL;
+   "//"; "level"; ":"; "0"; NL;
+   "latch_n5"; "="; "("; NL; "("; "b0"; "&&"; "latch_4"; ")"; "||"; NL;
+   "("; "("; "!"; "b0"; ")"; "&&"; "("; "!"; "true"; ")"; ")"; ")"; ";"; NL;
+   "latch_5"; "="; "("; NL; "("; "b0"; "&&"; "latch_4"; ")"; "||"; NL;
+   "("; "("; "!"; "b0"; ")"; "&&"; "("; "!"; "true"; ")"; ")"; ")"; ";"; NL;
+   "out_bits[""out0""]"; "="; "("; "!"; "latch_n5"; ")"; ";"; NL;
+   "out_bits[""out1""]"; "="; "latch_5"; ";"]%string.
+Example C13_rendered_text_instance :
+  exists syc syp,
+    lang_syntax "c" languages = Some syc /\ lang_syntax "python" languages = Some syp /\
+    names_ok syc (bnames 2) = true /\ names_ok syp (bnames 2) = true /\
+    dag_bits_ok 2 ex_dag = true /\
+    render syc (bnames 2) oname (dumps_bdd_as_code 2 ex_dag [(0, (-5)%Z); (1, 5%Z)])
+    = ex_c_text /\
+    run_text syc (bnames 2) [true; true] ex_c_text
+    = Some [("out_bits[""out0""]", false); ("out_bits[""out1""]", true)]%string /\
+    run_text syp (bnames 2) [true; true]
+      (render syp (bnames 2) oname (dumps_bdd_as_code 2 ex_dag [(0, (-5)%Z); (1, 5%Z)]))
+    = Some [("out_bits[""out0""]", false); ("out_bits[""out1""]", true)]%string /\
+    (* the strict evaluator rejects a Python keyword in C text *)
+    run_text syc (bnames 2) [true; true]
+      ["out_bits[""out0""]"; "="; "("; "not"; "b0"; ")"; ";"]%string = None.
+Proof.
+  eexists. eexists. split; [vm_compute; reflexivity|]. split; [vm_compute; reflexivity|].
+  repeat split; vm_compute; reflexivity.
 Qed.
 
 (* x in -1..1 (bits 0,1), requested output x' (bits 2,3), relation x' = x,
@@ -168,3 +270,7 @@ Print Assumptions C13_latches_assigned_once.
 Print Assumptions C13_step_correct.
 Print Assumptions C13_step_through_program.
 Print Assumptions C13_languages_same_keys_bounded.
+Print Assumptions C13_rendered_text_evaluates_program.
+Print Assumptions C13_rendered_text_evaluates_bdd.
+Print Assumptions C13_rendered_text_tables_ok_bounded.
+Print Assumptions C13_rendered_text_evaluates_extracted.
